@@ -430,8 +430,31 @@ theorem evalPrims_intro {ρ : Env} : ∀ {l : List Expr}, (∀ e ∈ l, eval opq
         simp only [ExprList.ofList, evalList, he, hl, bind, Except.bind, pure, Except.pure, List.mapM_cons, asPrim, ih, List.map]
 
 theorem eval_set_eq {ρ : Env} {t : DataType} {vs : ExprList} :
-    eval opq ρ (.set t vs) = (do let ps ← (do let xs ← evalList opq ρ vs; xs.mapM asPrim); pure (Value.set ps.eraseDups)) := by
+    eval opq ρ (.set t vs) = ((do let xs ← evalList opq ρ vs; xs.mapM asPrim) >>= fun ps =>
+      if sameKinds ps then pure (Value.set ps.eraseDups) else .error .type) := by
   simp only [eval, bind_assoc]
+
+theorem sameKinds_iff (ps : List Prim) : sameKinds ps = true ↔ ∀ p ∈ ps, ∀ q ∈ ps, p.kind = q.kind := by
+  cases ps with
+  | nil => simp [sameKinds]
+  | cons a l =>
+    simp only [sameKinds, List.all_eq_true, beq_iff_eq]
+    constructor
+    · intro h p hp q hq
+      have e1 : p.kind = a.kind := by
+        rcases List.mem_cons.1 hp with rfl | hm
+        · rfl
+        · exact h p hm
+      have e2 : q.kind = a.kind := by
+        rcases List.mem_cons.1 hq with rfl | hm
+        · rfl
+        · exact h q hm
+      rw [e1, e2]
+    · intro h q hq
+      exact h q (List.mem_cons_of_mem _ hq) a (List.mem_cons_self ..)
+
+theorem sameKinds_subset {ps qs : List Prim} (h : sameKinds ps = true) (hsub : ∀ q ∈ qs, q ∈ ps) : sameKinds qs = true :=
+  (sameKinds_iff qs).2 (fun p hp q hq => (sameKinds_iff ps).1 h p (hsub p hp) q (hsub q hq))
 
 /-- the value of a set literal is unchanged when repeated members are dropped (first occurrences kept) -/
 theorem eval_set_dedupe {ρ : Env} {t t' : DataType} {l : List Expr} {v : Value}
@@ -442,9 +465,18 @@ theorem eval_set_dedupe {ρ : Env} {t t' : DataType} {l : List Expr} {v : Value}
   obtain ⟨hall, rfl⟩ := evalPrims_inv opq hxs hps
   have hsub : ∀ e ∈ dedupe l, eval opq ρ e = .ok (.prim (primOf opq ρ e)) := fun e he => hall e (mem_eraseDups he)
   rw [eval_set_eq, evalPrims_intro opq hsub]
-  simp only [pure, Except.pure, Except.ok.injEq] at h
-  subst h
-  simp only [bind, Except.bind, pure, Except.pure, dedupe, eraseDups_map_eraseDups]
+  cases hk : sameKinds (l.map (primOf opq ρ)) with
+  | false => rw [hk] at h; cases h
+  | true =>
+    rw [hk] at h
+    simp only [if_true, pure, Except.pure, Except.ok.injEq] at h
+    subst h
+    have hk' : sameKinds ((dedupe l).map (primOf opq ρ)) = true :=
+      sameKinds_subset hk (fun q hq => by
+        obtain ⟨e, he, rfl⟩ := List.mem_map.1 hq
+        exact List.mem_map.2 ⟨e, mem_eraseDups he, rfl⟩)
+    simp only [dedupe] at hk'
+    simp only [bind, Except.bind, pure, Except.pure, dedupe, eraseDups_map_eraseDups, hk', if_true]
 
 theorem mkSet_eval {vs : ExprList} {e : Expr} (h : mkSet vs = .ok e) (ρ : Env) : eval opq ρ e = eval opq ρ (.set T.SET vs) := by
   unfold mkSet at h
